@@ -109,6 +109,8 @@ ran.append("without patch: %s -> %s" % (democmd, "ok" if rc == 0 else "FAIL"))
 if rc != 0:
     done(False, "demo fails WITHOUT the patch too: " + out[-300:], ran)
 sh("git -C /repo worktree remove --force %s" % wt)
+if os.environ.get("SEEDCONFIRM_NOCHECK") == "1":
+    done(True, "demo confirmed; check not run here (the builder runs tools/seedtest.sh)", ran, "pending")
 # the property's check against the patched tree
 rc, out, dt = sh("SEED_TAIL=12 /verif/tools/seedtest.sh %s %s" % (pid, patch), cwd="/verif", timeout=3000)
 line = " | ".join(l for l in out.splitlines() if re.search(r"VIOLATION|OK C|cases=|seedtest rc", l))
